@@ -380,132 +380,134 @@ func ruleStreamNeverSilent(c *Ctx) {
 	failObj := c.FnObj(pM, "streamableClientConn", "fail")
 	inF := c.Field(pM, "streamableClientConn", "incoming")
 	_, _, _, _ = ps, hs, failObj, inF
-		g := ps.Graph()
-		// processStream: returns with clientClosed=false must come after the unresumable test
-		var unresumable = -1
-		for _, cv := range g.condVertices() {
-			cond := g.Node(cv - 1).(ast.Expr)
-			b, isB := ast.Unparen(cond).(*ast.BinaryExpr)
-			if isB && b.Op == token.LAND {
-				x, y, op, ok1 := binaryCmp(b.X)
-				s, isC := ps.ConstString(y)
-				fx, twn, ok2 := NilTest(b.Y)
-				if ok1 && op == token.EQL && ps.ObjOf(x) == ps.NamedResult(0) && ps.NamedResult(0) != nil && isC && s == "" && ok2 && !twn && ps.ObjOf(fx) == types.Object(ps.ParamOfNamed(pJ, "Request")) {
-					unresumable = cv - 1
-				}
+	g := ps.Graph()
+	// processStream: returns with clientClosed=false must come after the unresumable test
+	var unresumable = -1
+	for _, cv := range g.condVertices() {
+		cond := g.Node(cv - 1).(ast.Expr)
+		b, isB := ast.Unparen(cond).(*ast.BinaryExpr)
+		if isB && b.Op == token.LAND {
+			x, y, op, ok1 := binaryCmp(b.X)
+			s, isC := ps.ConstString(y)
+			fx, twn, ok2 := NilTest(b.Y)
+			if ok1 && op == token.EQL && ps.ObjOf(x) == ps.NamedResult(0) && ps.NamedResult(0) != nil && isC && s == "" && ok2 && !twn && ps.ObjOf(fx) == types.Object(ps.ParamOfNamed(pJ, "Request")) {
+				unresumable = cv - 1
 			}
 		}
-		c.Need(unresumable >= 0, "processStream: test lastEventID == \"\" && forCall != nil")
-		nFalse := 0
-		for i, r := range ps.Returns() {
-			if len(r.Results) != 3 {
-				continue
-			}
-			if exprStr(r.Results[2]) == "true" {
-				continue
-			}
-			nFalse++
-			c.Check(g.Dominates(unresumable, g.VertexOf(r)), "processStream:return#"+itoa(i)+"-after-unresumable-test", ps, r, "every return that asks the caller to resume (clientClosed=false) is dominated by the unresumable test; a return that bypasses it leaves a call without event ids waiting forever")
+	}
+	c.Need(unresumable >= 0, "processStream: test lastEventID == \"\" && forCall != nil")
+	nFalse := 0
+	for i, r := range ps.Returns() {
+		if len(r.Results) != 3 {
+			continue
 		}
-		c.Pin("resume-requesting returns", nFalse, 1)
-		// the true branch sends a synthetic error response for forCall.ID
-		t, _ := g.BranchTargets(unresumable)
-		okSend := false
-		seen, _ := g.reach([]int{t}, nil, nil)
-		for _, s := range sendsOn(ps, inF) {
-			sv := g.VertexOf(s)
-			if !(seen[sv] || sv == t) {
+		if exprStr(r.Results[2]) == "true" {
+			continue
+		}
+		nFalse++
+		c.Check(g.Dominates(unresumable, g.VertexOf(r)), "processStream:return#"+itoa(i)+"-after-unresumable-test", ps, r, "every return that asks the caller to resume (clientClosed=false) is dominated by the unresumable test; a return that bypasses it leaves a call without event ids waiting forever")
+	}
+	c.Pin("resume-requesting returns", nFalse, 1)
+	// the true branch sends a synthetic error response for forCall.ID
+	t, _ := g.BranchTargets(unresumable)
+	okSend := false
+	seen, _ := g.reach([]int{t}, nil, nil)
+	for _, s := range sendsOn(ps, inF) {
+		sv := g.VertexOf(s)
+		if !(seen[sv] || sv == t) {
+			continue
+		}
+		v := ps.ObjOf(s.Value)
+		for _, w := range Writes(ps.Body, false) {
+			if ps.ObjOf(w.LHS) != v || w.RHS == nil {
 				continue
 			}
-			v := ps.ObjOf(s.Value)
-			for _, w := range Writes(ps.Body, false) {
-				if ps.ObjOf(w.LHS) != v || w.RHS == nil {
-					continue
-				}
-				u, ok := ast.Unparen(w.RHS).(*ast.UnaryExpr)
+			u, ok := ast.Unparen(w.RHS).(*ast.UnaryExpr)
+			if !ok {
+				continue
+			}
+			cl, ok := u.X.(*ast.CompositeLit)
+			if !ok {
+				continue
+			}
+			idOK, errOK := false, false
+			for _, el := range cl.Elts {
+				kv, ok := el.(*ast.KeyValueExpr)
 				if !ok {
 					continue
 				}
-				cl, ok := u.X.(*ast.CompositeLit)
-				if !ok {
-					continue
+				if name, on := ps.SelectorOn(kv.Value, ps.ParamOfNamed(pJ, "Request")); exprStr(kv.Key) == "ID" && on && name == "ID" {
+					idOK = true
 				}
-				idOK, errOK := false, false
-				for _, el := range cl.Elts {
-					kv, ok := el.(*ast.KeyValueExpr)
-					if !ok {
-						continue
-					}
-					if name, on := ps.SelectorOn(kv.Value, ps.ParamOfNamed(pJ, "Request")); exprStr(kv.Key) == "ID" && on && name == "ID" {
-						idOK = true
-					}
-					if exprStr(kv.Key) == "Error" && !isNilIdent(kv.Value) {
-						errOK = true
-					}
+				if exprStr(kv.Key) == "Error" && !isNilIdent(kv.Value) {
+					errOK = true
 				}
-				okSend = idOK && errOK
 			}
+			okSend = idOK && errOK
 		}
-		okAll, _ := g.MustPass(t, g.Exits, func(v int) bool {
-			_, isSend := g.Node(v).(*ast.SendStmt)
-			return isSend
+	}
+	okAll, _ := g.MustPass(t, g.Exits, func(v int) bool {
+		_, isSend := g.Node(v).(*ast.SendStmt)
+		return isSend
+	})
+	if n := g.Node(t); n != nil {
+		if _, isSend := n.(*ast.SendStmt); isSend {
+			okAll = true
+		}
+	}
+	c.Check(okSend && okAll, "processStream:synthetic-error-for-unresumable-call", ps, g.Node(unresumable), "when the stream ends with no event id and a call is pending, a Response{ID: forCall.ID, Error: …} is handed to the session on every path")
+	// handleSSE returns
+	hg := hs.Graph()
+	var closedVar, cursorVar types.Object
+	for _, w := range Writes(hs.Body, false) {
+		if as, ok := w.Stmt.(*ast.AssignStmt); ok && len(as.Lhs) == 3 {
+			cursorVar, closedVar = hs.ObjOf(as.Lhs[0]), hs.ObjOf(as.Lhs[2])
+		}
+	}
+	fvs := hg.callVertices(failObj)
+	for i, r := range hs.Returns() {
+		rv := hg.VertexOf(r)
+		if r.Pos() == hs.Body.End()-1 {
+			continue
+		}
+		guards := hg.GuardsAt(rv)
+		byClient := hasAtom(guards, func(a Atom) bool { return a.Val && hs.ObjOf(a.E) == closedVar })
+		unres := hasAtom(guards, func(a Atom) bool {
+			x, y, op, ok := binaryCmp(a.E)
+			s, isC := hs.ConstString(y)
+			return ok && op == token.EQL && a.Val && hs.ObjOf(x) == cursorVar && isC && s == ""
+		}) && hasAtom(guards, func(a Atom) bool {
+			return AtomSaysNil(a, false, func(e ast.Expr) bool { return hs.ObjOf(e) == types.Object(hs.ParamOfNamed(pJ, "Request")) })
 		})
-		if n := g.Node(t); n != nil {
-			if _, isSend := n.(*ast.SendStmt); isSend {
-				okAll = true
-			}
-		}
-		c.Check(okSend && okAll, "processStream:synthetic-error-for-unresumable-call", ps, g.Node(unresumable), "when the stream ends with no event id and a call is pending, a Response{ID: forCall.ID, Error: …} is handed to the session on every path")
-		// handleSSE returns
-		hg := hs.Graph()
-		var closedVar, cursorVar types.Object
-		for _, w := range Writes(hs.Body, false) {
-			if as, ok := w.Stmt.(*ast.AssignStmt); ok && len(as.Lhs) == 3 {
-				cursorVar, closedVar = hs.ObjOf(as.Lhs[0]), hs.ObjOf(as.Lhs[2])
-			}
-		}
-		fvs := hg.callVertices(failObj)
-		for i, r := range hs.Returns() {
-			rv := hg.VertexOf(r)
-			if r.Pos() == hs.Body.End()-1 {
+		failed := false
+		for _, fv := range fvs {
+			if hg.Dominates(fv, rv) {
+				failed = true
 				continue
 			}
-			guards := hg.GuardsAt(rv)
-			byClient := hasAtom(guards, func(a Atom) bool { return a.Val && hs.ObjOf(a.E) == closedVar })
-			unres := hasAtom(guards, func(a Atom) bool {
-				x, y, op, ok := binaryCmp(a.E)
-				s, isC := hs.ConstString(y)
-				return ok && op == token.EQL && a.Val && hs.ObjOf(x) == cursorVar && isC && s == ""
-			}) && hasAtom(guards, func(a Atom) bool { return AtomSaysNil(a, false, func(e ast.Expr) bool { return hs.ObjOf(e) == types.Object(hs.ParamOfNamed(pJ, "Request")) }) })
-			failed := false
-			for _, fv := range fvs {
-				if hg.Dominates(fv, rv) {
-					failed = true
-					continue
+			// `if ctx.Err() == nil { c.fail(...) }; return`
+			fg := hg.GuardsAt(fv)
+			if hasAtom(fg, func(a Atom) bool {
+				x, twn, ok := NilTest(a.E)
+				if !ok || twn != a.Val {
+					return false
 				}
-				// `if ctx.Err() == nil { c.fail(...) }; return`
-				fg := hg.GuardsAt(fv)
-				if hasAtom(fg, func(a Atom) bool {
-					x, twn, ok := NilTest(a.E)
-					if !ok || twn != a.Val {
-						return false
-					}
-					ce, isC := ast.Unparen(x).(*ast.CallExpr)
-					return isC && hs.Callee(ce) != nil && hs.Callee(ce).Name() == "Err"
-				}) {
-					// the return immediately follows the if that contains the fail
-					ifs, _ := hs.Enclosing(hg.Node(fv), func(n ast.Node) bool { _, ok := n.(*ast.IfStmt); return ok }).(*ast.IfStmt)
-					if ifs != nil {
-						if blk, ok := hs.ParentOf(ifs).(*ast.BlockStmt); ok {
-							for j, st := range blk.List {
-								if st == ast.Stmt(ifs) && j+1 < len(blk.List) && blk.List[j+1] == ast.Stmt(r) {
-									failed = true
-								}
+				ce, isC := ast.Unparen(x).(*ast.CallExpr)
+				return isC && hs.Callee(ce) != nil && hs.Callee(ce).Name() == "Err"
+			}) {
+				// the return immediately follows the if that contains the fail
+				ifs, _ := hs.Enclosing(hg.Node(fv), func(n ast.Node) bool { _, ok := n.(*ast.IfStmt); return ok }).(*ast.IfStmt)
+				if ifs != nil {
+					if blk, ok := hs.ParentOf(ifs).(*ast.BlockStmt); ok {
+						for j, st := range blk.List {
+							if st == ast.Stmt(ifs) && j+1 < len(blk.List) && blk.List[j+1] == ast.Stmt(r) {
+								failed = true
 							}
 						}
 					}
 				}
 			}
-			c.Check(byClient || unres || failed, "handleSSE:return#"+itoa(i), hs, r, "handleSSE stops only because the client closed, because the call was already failed as unresumable, or after marking the connection failed (unless the caller's ctx ended) (guards: %s)", atomsString(guards))
 		}
+		c.Check(byClient || unres || failed, "handleSSE:return#"+itoa(i), hs, r, "handleSSE stops only because the client closed, because the call was already failed as unresumable, or after marking the connection failed (unless the caller's ctx ended) (guards: %s)", atomsString(guards))
 	}
+}
